@@ -488,6 +488,13 @@ def run_cart(c, tier, rng, rd, exe):
             if not rs["absorbed"] and any(cs["per"][k] and rs["exit"][k] != 0 for k in range(3)):
                 nskip += 1
                 continue
+            gj = g["rays"][j]
+            if gj.get("iod", -1.) >= 0. and not rs["absorbed"]:
+                # integrate_optical_depth: the total optical depth up to the box boundary = what the escaping packet used
+                if abs(gj["iod"] - rs["used2"] / 2.) > 1.0e-9 * max(1., rs["used2"] / 2.):
+                    c.violation("cart:integrate_optical_depth:%s" % sig, "integrate_optical_depth gives %r for ray p=%s d=%s, the exact sum of "
+                                "opacity x path is %r" % (gj["iod"], ry["p"], ry["d"], rs["used2"] / 2.), dict(info, ray=ry["p"] + ry["d"]))
+                    break
             if compare_ray(c, "cart", sig, cs, ry, rs, g["rays"][j], u, lambda x, y, z: x * G[1] * G[2] + y * G[2] + z, info):
                 nray_ok += 1
             else:
